@@ -6,7 +6,10 @@ Go's map iteration order is an adversary.  Every model function that corresponds
 permutation of the map's entries); the theorems in `Props.lean` say for which site classes
 the result does not depend on it.
 
-Part 1  site classes (one small function per way a loop body uses the visited entries)
+Part 1  site classes (one small function per way a loop body uses the visited entries);
+        1c: loops that CHOOSE one entry (`VirtualOS.findMount`: `selStep`, `findMount`, the
+        forbidden last-one-wins variant); 1d: the hash key of a value as a function of the value
+        alone (`HV`, `HV.key`, `setListing`, the promised order `HV.less`, the forbidden seeded-hash key)
 Part 2  a fragment of the language (literals, globals, `+`, list/map/set literals, index,
         `print`) with the compiler's emission order for map literals under an adversary,
         the constant pool / symbol table, and the VM on the emitted code
@@ -187,6 +190,194 @@ def moduleCacheAlias (vis : List (String × Option (String × Nat))) : AMap (Str
   vis.foldl (fun m g => match g.2 with
     | some mod => (m.set g.1 mod).set mod.1 mod
     | none => m) AMap.empty
+
+/-! ### Part 1c — loops that CHOOSE one entry of a map: `VirtualOS.findMount`
+
+Every file operation of a script under a virtual OS (`os.read_file`, `os.write_file`, `os.stat`,
+`os.remove`, `os.rename`, `open`, …) goes through `findMount`, which ranges over the `mounts` Go
+map: an entry whose key IS the path ends the loop at once; otherwise an entry whose key is a prefix
+of the path ending at a component boundary becomes the candidate if it is STRICTLY LONGER than the
+candidate held so far.  Which filesystem serves the access — result, error and side effects of the
+script — is the outcome of this loop. -/
+
+/-- the state of a choosing loop: it has returned from inside the loop (`done`), or holds the
+    best candidate so far -/
+inductive Sel (α : Type) where
+  | done (a : α)
+  | cand (best : Option α)
+  deriving DecidableEq, Repr
+
+/-- one iteration of the loop of `findMount`, abstractly: `exact x` = "return this entry now";
+    `ok x` = "the entry qualifies"; a qualifying entry replaces the candidate `m` iff
+    `lenNew x > lenCur m` (the code compares `len(k)` of the visited KEY with
+    `len(match.Target)` of the candidate: two different fields of the entries) -/
+def selStep (exact ok : α → Bool) (lenNew lenCur : α → Nat) (s : Sel α) (x : α) : Sel α :=
+  match s with
+  | .done a => .done a
+  | .cand best =>
+    if exact x then .done x
+    else if ok x then
+      match best with
+      | none => .cand (some x)
+      | some m => if lenNew x > lenCur m then .cand (some x) else .cand (some m)
+    else .cand best
+
+/-- the choosing loop over the visiting order `vis` -/
+def selectLoop (exact ok : α → Bool) (lenNew lenCur : α → Nat) (vis : List α) : Sel α :=
+  vis.foldl (selStep exact ok lenNew lenCur) (.cand none)
+
+/-- the variant that is NOT order-independent (kept for `lastSelect_counterexample`): every
+    qualifying entry replaces the candidate — what the loop degenerates to when the candidate is
+    compared with anything but the best length seen so far (a bound that is never updated) -/
+def selStepLast (exact ok : α → Bool) (s : Sel α) (x : α) : Sel α :=
+  match s with
+  | .done a => .done a
+  | .cand best => if exact x then .done x else if ok x then .cand (some x) else .cand best
+
+def selectLast (exact ok : α → Bool) (vis : List α) : Sel α :=
+  vis.foldl (selStepLast exact ok) (.cand none)
+
+/-- Go's `strings.HasPrefix` on byte strings (paths are lists of bytes: no normalisation hides
+    in a string type) -/
+def hasPrefixB : List Nat → List Nat → Bool
+  | _, [] => true
+  | [], _ :: _ => false
+  | a :: p, b :: k => a == b && hasPrefixB p k
+
+/-- one entry of the mount table: the key it is registered under, `Mount.Target`, and the
+    identity of the mount (which filesystem) -/
+structure MountEnt where
+  key : List Nat
+  target : List Nat
+  id : Nat
+  deriving DecidableEq, Repr
+
+/-- `k` is a string prefix of `path` that ends at a component boundary: the mount point ends
+    with '/' (47) or the next byte of the path is '/' -/
+def mountMatches (path k : List Nat) : Bool :=
+  hasPrefixB path k && (k.getLast? == some 47 || path[k.length]? == some 47)
+
+/-- `strings.TrimPrefix(path, target)`, `"/"` when nothing is left -/
+def relOf (path target : List Nat) : List Nat :=
+  let rel := if hasPrefixB path target then path.drop target.length else path
+  if rel.isEmpty then [47] else rel
+
+/-- **Impl** `VirtualOS.findMount` on the path string it matches (absolute, cleaned): which
+    mount serves the access and the path handed to that mount's filesystem; `vis` = the order
+    in which the `range` over `osObj.mounts` visits the entries -/
+def findMount (path : List Nat) (vis : List MountEnt) : Option (Nat × List Nat) :=
+  match selectLoop (fun e => e.key == path) (fun e => mountMatches path e.key)
+      (fun e => e.key.length) (fun e => e.target.length) vis with
+  | .done e => some (e.id, [47])
+  | .cand (some e) => some (e.id, relOf path e.target)
+  | .cand none => none
+
+/-- the forbidden variant of `findMount`: the last qualifying mount visited wins -/
+def findMountLast (path : List Nat) (vis : List MountEnt) : Option (Nat × List Nat) :=
+  match selectLast (fun e => e.key == path) (fun e => mountMatches path e.key) vis with
+  | .done e => some (e.id, [47])
+  | .cand (some e) => some (e.id, relOf path e.target)
+  | .cand none => none
+
+/-- every mount is registered under its own `Target` (what `cmd/risor` and every caller in the
+    repository does; the guard of finding C05-findmount-target-length) -/
+def targetsAreKeys (vis : List MountEnt) : Bool := vis.all (fun e => e.target == e.key)
+
+/-! ### Part 1d — the hash key of a value is a function of the VALUE alone
+
+`Set.SortedItems` orders the members by their hash keys, so the order in which a set prints,
+iterates, converts to a list and marshals is the order of `HashKey()` of its members.  The
+property ("maps and sets iterate and print in sorted order", the same in every fresh process)
+therefore needs every `HashKey()` method to be a function of the value — no per-process seed,
+no address — that is injective and monotone within a type. -/
+
+/-- a hashable risor value (the seven types that implement `object.Hashable`).  A float is
+    carried as its position among the non-NaN float64 values, a byte slice and a string as
+    their bytes (one character per byte). -/
+inductive HV where
+  | int (n : Int)
+  | str (s : String)
+  | bool (b : Bool)
+  | nil
+  | byte (b : Nat)
+  | bytes (s : String)
+  | flt (ord : Int)
+  | nan
+  deriving DecidableEq, Repr
+
+/-- **Impl** the seven `HashKey()` methods of package object, as read (tie
+    `Ties.hash_keys_reviewed`): the type name and ONE value field filled with the value itself -/
+def HV.key : HV → HKey
+  | .int n => ⟨"int", n, "", 0, false⟩
+  | .str s => ⟨"string", 0, s, 0, false⟩
+  | .bool b => ⟨"bool", if b then 1 else 0, "", 0, false⟩
+  | .nil => ⟨"nil", 0, "", 0, false⟩
+  | .byte b => ⟨"byte", b, "", 0, false⟩
+  | .bytes s => ⟨"byte_slice", 0, s, 0, false⟩
+  | .flt o => ⟨"float", 0, "", o, false⟩
+  | .nan => ⟨"float", 0, "", 0, true⟩
+
+/-- the forbidden variant (kept for `hashedKey_counterexample`): a byte slice longer than `limit`
+    is keyed by a hash `h` of its contents plus its first `limit` bytes — `h` standing for a hash
+    function seeded per process -/
+def HV.keyHashed (limit : Nat) (h : String → Int) : HV → HKey
+  | .bytes s =>
+    if s.length ≤ limit then ⟨"byte_slice", 0, s, 0, false⟩
+    else ⟨"byte_slice", h s, String.ofList (s.toList.take limit), 0, false⟩
+  | v => v.key
+
+/-- the members of a set in the order `SortedItems` lists them, given how members are keyed:
+    the VALUES, sorted by their hash keys (`sortedItems` on the keys, Part 1b) -/
+def listingBy (key : HV → HKey) (vis : List HV) : List HV :=
+  (isort (fun a b => hkGe (key a) (key b)) vis.reverse).reverse
+
+/-- **Impl** printing / iterating / `list()` / `json.marshal` of a set -/
+def setListing (vis : List HV) : List HV := listingBy HV.key vis
+
+def HV.isNaN : HV → Bool
+  | .nan => true
+  | _ => false
+
+/-- the type name, as `Type()` returns it -/
+def HV.ty : HV → String
+  | .int _ => "int" | .str _ => "string" | .bool _ => "bool" | .nil => "nil"
+  | .byte _ => "byte" | .bytes _ => "byte_slice" | .flt _ => "float" | .nan => "float"
+
+/-- **Spec** the order the property promises ("sets iterate and print in sorted order"), stated
+    on VALUES without any hash key: by type name, and within a type ints and bytes numerically,
+    strings and byte slices bytewise, `false` before `true`, floats numerically -/
+def HV.less (a b : HV) : Bool :=
+  if a.ty != b.ty then decide (a.ty < b.ty)
+  else match a, b with
+    | .int x, .int y => decide (x < y)
+    | .str x, .str y => decide (x < y)
+    | .bool x, .bool y => !x && y
+    | .byte x, .byte y => decide (x < y)
+    | .bytes x, .bytes y => decide (x < y)
+    | .flt x, .flt y => decide (x < y)
+    | _, _ => false
+
+/-- the reviewed table of the `HashKey()` methods of package object (type, the text of the body as
+    the extractor prints it: layout-insensitive).  Read at the pinned commit: every body builds ONE
+    `HashKey` literal from the receiver's type name and the receiver's value — no package-level
+    state, no seed, no address.  These seven are the types that can be members of a set. -/
+def hashKeysReviewed : List (String × String) := [
+  ("Bool", "{ var value int64 if b.value { value = 1 } else { value = 0 } return HashKey{Type: b.Type(), IntValue: value} }"),
+  ("Byte", "{ return HashKey{Type: b.Type(), IntValue: int64(b.value)} }"),
+  ("ByteSlice", "{ return HashKey{Type: b.Type(), StrValue: string(b.value)} }"),
+  ("Float", "{ return HashKey{Type: f.Type(), FltValue: f.value} }"),
+  ("Int", "{ return HashKey{Type: i.Type(), IntValue: i.value} }"),
+  ("NilType", "{ return HashKey{Type: n.Type()} }"),
+  ("String", "{ return HashKey{Type: s.Type(), StrValue: s.value} }")
+]
+
+/-- the choosing loop of `VirtualOS.findMount` as the extractor prints it (the one range-over-map
+    statement of the function).  Read at the pinned commit against `selStep`: `k == path` →
+    `done`; a prefix that does not end at a component boundary → next entry; a qualifying entry
+    replaces the candidate iff there is none or `len(k) > len(match.Target)`. -/
+def findMountLoopsReviewed : List String := [
+  "for k, v := range osObj.mounts { if k == path { return v, \"/\", true } if strings.HasPrefix(path, k) { if !strings.HasSuffix(k, \"/\") && path[len(k)] != '/' { continue } if match == nil || len(k) > len(match.Target) { match = v } } }"
+]
 
 /-! ## Part 2 — the language fragment -/
 
@@ -948,7 +1139,10 @@ inductive SiteClass where
   /-- per-entry effect on the entry's own object only; effects on distinct objects commute -/
   | perEntry
   /-- longest matching key; unique because two prefixes of one path of equal length are equal
-      (`Risor.C13.findMount_order_independent`) -/
+      (`findMount_perm_invariant`, Part 1c: every table whose mounts are registered under their
+      own `Target`; outside that guard finding C05-findmount-target-length,
+      `findMount_counterexample_target`; `Risor.C13.findMount_order_independent` is the same fact
+      in C13's path model) -/
   | maxSelect
   /-- first visited failing entry decides the error: order-independent only when at most one
       kind of failure is present (`first_failure_perm_invariant`); otherwise a finding -/
